@@ -352,7 +352,10 @@ package dbft
 //@        self.blockProcessed, self.preBlockProcessed, self.BlockIndex, self.PrimaryIndex) && gTimerArms == old(gTimerArms) && gTimerExt == old(gTimerExt)
 //@ pred txKept() = forallOf(Transaction, t, implies(old(has(self.Transactions, t.Hash())), has(self.Transactions, t.Hash())))
 // C11: an inadmissible or repeated input changes nothing of the above and causes no broadcast.
-//@ pred ignored() = quiet() && gBroadcasts == old(gBroadcasts)
+// ... and leaves alone what shapes later timeouts and proposals: the round-trip estimate, the remembered instants, the subscription
+//@ pred timingSame() = self.rttEstimates.avg == old(self.rttEstimates.avg) && self.rttEstimates.idx == old(self.rttEstimates.idx)
+//@        && unchanged(self.lastBlockTime, self.lastBlockIndex, self.lastBlockView, self.prepareSentTime, self.txSubscriptionOn)
+//@ pred ignored() = quiet() && gBroadcasts == old(gBroadcasts) && timingSame()
 //@ pred cachePurged() = forall(h, implies(has(self.cache.mail, h), h >= self.BlockIndex))
 //@ bundle UNDECIDED
 //@   requires [C05] @undecided !self.blockProcessed
@@ -523,9 +526,11 @@ package dbft
 //@        && implies(self.Config.MaxTimePerBlock != nil, self.maxTimePerBlock == gMaxTimePerBlock) && tip() && self.MyIndex == first(self.Config.GetKeyPair(self.Validators)))
 // the block-time bounds in force at a height are the ones the callbacks report when the height is entered (C16: an empty
 // proposal waits for the CURRENT maximum, proposals keep the CURRENT minimum distance)
+//@   ensures [C13,C05] @ownIndexFresh implies(view == 0, self.MyIndex == first(self.Config.GetKeyPair(self.Validators)))
 //@   ensures [C16] @freshTiming implies(view == 0, self.timePerBlock == gTimePerBlock && implies(self.Config.MaxTimePerBlock != nil, self.maxTimePerBlock == gMaxTimePerBlock))
 //@   ensures [C16,C05] @unsubscribed !self.txSubscriptionOn
 //@   ensures [C15,C05] @base self.lastBlockTimestamp == ts
+//@   ensures [C05,C16] @noStaleSendInstant self.prepareSentTime == tzero()
 //@   ensures [C11] @seenMono implies(view > 0, seenMono())
 //@   ensures [C05,C07,C03,C01,C11] @keptWithinHeight implies(view > 0, sameHeight() && unchanged(self.CommitPayloads, self.PreCommitPayloads, self.preBlockProcessed, self.blockProcessed))
 //@   ensures [C05,C04,C02,C03,C11,C07,C01] @tablesCleared forall(i, 0, NN(), self.PreparationPayloads[i] == nil && self.ChangeViewPayloads[i] == nil) && implies(view == 0, forall(i, 0, NN(), self.CommitPayloads[i] == nil && self.PreCommitPayloads[i] == nil))
@@ -571,9 +576,12 @@ package dbft
 //@   inline
 //@   at call *.NewPrepareRequest: assert [C15] @proposalFields arg0 == c.Timestamp && arg1 == c.Nonce && sametable(arg2, c.TransactionHashes)
 // C15: the proposal fields are written only when a proposal is made, received, or the context is reset.
-//@ writers [C15] Context.Timestamp : (*Context).Fill, (*DBFT).onPrepareRequest
-//@ writers [C15] Context.Nonce : (*Context).Fill, (*DBFT).onPrepareRequest
-//@ writers [C15] Context.TransactionHashes : (*Context).Fill, (*DBFT).onPrepareRequest, (*Context).reset
+//@ callers [C15] Config.NewPrepareRequest : (*Context).makePrepareRequest
+// the view is entered in one place only, where the evidence for it is demanded (C04) and the commit lock is checked (C03)
+//@ callers [C04,C03] (*Context).reset : (*DBFT).initializeConsensus
+//@ writers [C15,C02] Context.Timestamp : (*Context).Fill, (*DBFT).onPrepareRequest
+//@ writers [C15,C02] Context.Nonce : (*Context).Fill, (*DBFT).onPrepareRequest
+//@ writers [C15,C02,C04] Context.TransactionHashes : (*Context).Fill, (*DBFT).onPrepareRequest, (*Context).reset
 // C02: the ledger position is read only at (re)initialisation.
 //@ writers [C02] Context.BlockIndex : (*Context).reset
 //@ writers [C02] Context.PrevHash : (*Context).reset
@@ -665,6 +673,7 @@ package dbft
 //@   ensures [C16,C14] @rttReference implies(gBroadcasts == old(gBroadcasts), unchanged(self.prepareSentTime))
 //@   ensures [C16] @forcedProposes implies(force || self.Config.MaxTimePerBlock == nil, gBroadcasts > old(gBroadcasts))
 // a proposal goes out only if it was forced, or no maximum block time is configured, or the pool just read was not empty
+//@   at call *.broadcast: assert [C15,C03] @broadcastsTheStoredProposal arg0 == self.PreparationPayloads[self.MyIndex] && arg0 != nil
 //@   at call *.broadcast: assert [C16] @emptyNotProposed force || self.Config.MaxTimePerBlock == nil || len(gPool) > 0
 //@   at call *.checkPrepare: assert [C16] @unsubscribedOnceProposed !self.txSubscriptionOn
 //@   ensures [C16] @emptyWaitsMax implies(gBroadcasts == old(gBroadcasts), self.Config.MaxTimePerBlock != nil && !force && self.txSubscriptionOn
@@ -698,8 +707,8 @@ package dbft
 //@   ensures [C11,C02,C04,C07,C03] @slot slot()
 //@   ensures [C04] @prep prep()
 //@   ensures forall(i, 0, NN(), implies(i != self.MyIndex, self.PreparationPayloads[i] == old(self.PreparationPayloads[i])))
-//@   ensures gBroadcasts == old(gBroadcasts) + 1
-//@   ensures [C04] @names self.PreparationPayloads[self.MyIndex] != nil && gLastBcast == self.PreparationPayloads[self.MyIndex]
+//@   ensures [C12,C04] @speaks gBroadcasts == old(gBroadcasts) + 1
+//@   ensures [C04,C12] @names self.PreparationPayloads[self.MyIndex] != nil && gLastBcast == self.PreparationPayloads[self.MyIndex]
 //@        && self.PreparationPayloads[self.MyIndex].GetPrepareResponse().PreparationHash() == self.PreparationPayloads[self.PrimaryIndex].Hash()
 //@   requires [C03] @said said() && gPrep == nil
 //@   ensures [C03] @said said()
@@ -830,6 +839,8 @@ package dbft
 //@   at call *.makeChangeView: assert [C14] @stamp arg0 == gClock
 //@   use UNDECIDED
 //@   requires [C03,C01] @lock !locked()
+// a count that does not reach the quorum changes nothing at all
+//@   ensures [C11] @staysQuiet implies(self.ViewNumber == old(self.ViewNumber), ignored())
 //@   ensures [C12] @staysOrMoves self.ViewNumber > old(self.ViewNumber) || (self.ViewNumber == old(self.ViewNumber) && unchanged(self.ChangeViewPayloads))
 //@   loop 1: invariant 0 <= count && count <= idx && idx <= NN()
 //@   loop 1: invariant [C04] @counts count == count(j, 0, idx, self.ChangeViewPayloads[j] != nil && self.ChangeViewPayloads[j].GetChangeView().NewViewNumber() >= view)
@@ -887,7 +898,7 @@ package dbft
 //@   ensures @heap heapMono()
 //@   ensures [C10] @timer implies(aview(), timerOK())
 // C14 / C10: the requested duration depends on the clock only through the difference to the instant of the last block round.
-//@   ensures [C14,C10] @duration implies(notWatchOnly() && aview() && self.lastBlockTime != tzero() && 0 <= self.rttEstimates.avg && self.rttEstimates.avg <= 2305843009213693952 && self.lastBlockIndex < 4294967295,
+//@   ensures [C14,C10,C16] @duration implies(notWatchOnly() && aview() && self.lastBlockTime != tzero() && 0 <= self.rttEstimates.avg && self.rttEstimates.avg <= 2305843009213693952 && self.lastBlockIndex < 4294967295,
 //@        gTimerD == ite(self.lastBlockIndex + 1 == self.BlockIndex,
 //@              max(0, timeoutBase(view) - (gClock - self.lastBlockTime) - self.rttEstimates.avg / 2), timeoutBase(view)))
 //@   ensures @arms gTimerArms >= old(gTimerArms) && gBroadcasts >= old(gBroadcasts) && gInbound >= old(gInbound)
@@ -982,6 +993,8 @@ package dbft
 //@        && !force && !self.txSubscriptionOn, len(gPool) != 0)
 // the proposal is forced exactly when it is due: at a view above 0, after the wait for transactions, or on the caller's demand
 //@   at call *.sendPrepareRequest: assert [C16] @forceOnlyWhenDue arg0 == (self.ViewNumber != 0 || self.txSubscriptionOn || force)
+//@   ensures [C16] @idleBackupWaitsMax implies(!old(self.txSubscriptionOn) && self.txSubscriptionOn && self.MyIndex != self.PrimaryIndex && self.ViewNumber == old(self.ViewNumber) && gBroadcasts == old(gBroadcasts) && aview(), gTimerD == shl(self.maxTimePerBlock, 1) - shl(self.timePerBlock, 1))
+//@   at call *.sendChangeView: assert [C16] @notifiedBackupStays !(self.ViewNumber == 0 && self.Config.MaxTimePerBlock != nil && self.MyIndex >= 0 && self.MyIndex != self.PrimaryIndex && force)
 //@   at call *.subscribeForTransactions: assert [C16] @idleBackupSubscribes self.ViewNumber == 0 && self.MyIndex != self.PrimaryIndex && !force && !self.txSubscriptionOn && len(gPool) == 0
 //@   ensures [C10] @rearm implies(aview() && height == old(self.BlockIndex) && view == old(self.ViewNumber) && !old(self.blockProcessed) && notWatchOnly(), gTimerArms > old(gTimerArms) || self.blockProcessed)
 // a forced timeout of the current epoch makes a primary that has not proposed yet propose
@@ -1042,6 +1055,9 @@ package dbft
 //@   use UNDECIDED
 //@   requires admitted(msg) && msg.Type() == ChangeViewType
 //@   ensures [C11] @redeliveredChangeView implies(old(self.ChangeViewPayloads[msg.ValidatorIndex()]) == msg, quiet())
+// the part of the above that the recorded finding P11 does not touch, under its own name: a re-delivered request may - that is the
+// finding - change the view; while the view stays it changes nothing, extends no timer and leaves the timing state alone
+//@   ensures [C11] @redeliveredChangeViewTimer implies(old(self.ChangeViewPayloads[msg.ValidatorIndex()]) == msg && self.ViewNumber == old(self.ViewNumber), quiet())
 //@ func (*DBFT).onPreCommit
 //@   recvname d
 //@   params msg
@@ -1089,6 +1105,8 @@ package dbft
 //@ func (*DBFT).processMissingTx
 //@   recvname d
 //@   loops 1
+// C12: the application is asked for everything the node still misses (the statement's "every transaction the node asked it to fetch")
+//@   at call *.RequestTx: assert [C12] @asksForAllMissing len(arg0) == len(self.MissingTransactions) && forall(k, 0, len(arg0), arg0[k] == self.MissingTransactions[k])
 //@   requires wf()
 //@   loop 1: invariant !isnil(self.Transactions) && txKept()
 //@   loop 1: invariant len(self.MissingTransactions) >= old(len(self.MissingTransactions)) && forall(j, 0, old(len(self.MissingTransactions)), self.MissingTransactions[j] == old(self.MissingTransactions[j]))
@@ -1194,6 +1212,8 @@ package dbft
 //@   ensures cacheOK() && heapMono()
 //@   ensures forall(k, implies(has(self.cache.mail, k), old(has(self.cache.mail, k)) || k == m.Height()))
 //@   ensures [C05] @stored cached(m)
+// storing one payload does not push out what another sender's payloads cached for the same height
+//@   ensures [C05] @othersKept forallOf(ConsensusPayload, q, implies(old(cached(q)) && q.Height() == m.Height() && q.ValidatorIndex() != m.ValidatorIndex(), cached(q)))
 //@   modifies cache.mail, heap inbox.*
 //@ func (*rtt).addTime
 //@   recvname r
